@@ -153,6 +153,52 @@ def value_terms(f, T, t, depth=3):
     return out
 
 
+def select_extreme(ctx, g, t, cls):
+    """How term t picks between two classified quantities: returns ("max"|"min"|"other", {label: operand term}).
+    Accepted shapes: a max()/min() call of two operands with distinct labels; a local assigned one of them on
+    different paths, decided by a guard table over their order. cls(term) -> label or None."""
+    from engine.guards import Atom, Walker
+    T = ctx.T(g)
+    if t[0] == "call" and t[1] in ("std::cmp::max", "std::cmp::Ord::max", "std::cmp::min", "std::cmp::Ord::min") and len(t[2]) == 2:
+        labs = {cls(x): x for x in t[2]}
+        if None in labs or len(labs) != 2:
+            return "other", {}
+        return ("max" if t[1].endswith("max") else "min"), labs
+    if t[0] != "var":
+        return "other", {}
+    defs = {}
+    ops = {}
+    for bi, b in enumerate(g.blocks):
+        for st in b["s"]:
+            if st["k"] == "assign" and not st["p"].get("pr") and st["p"]["l"] == t[1]:
+                v = T.rvalue(st["r"])
+                lab = cls(v)
+                if lab is None:
+                    return "other", {}
+                defs.setdefault(lab, []).append(bi)
+                ops[lab] = v
+    if len(defs) != 2:
+        return "other", {}
+    l1, l2 = sorted(defs)
+
+    def m(a, b):
+        if cls(a) == l1 and cls(b) == l2:
+            return 1
+        if cls(a) == l2 and cls(b) == l1:
+            return -1
+        return 0
+    W = Walker(ctx, g, [Atom("cmp(%s,%s)" % (l1, l2), "cmp", m, ["<", "=", ">"])])
+    names, tab = W.table(defs)
+    lt, eq, gt = tab.get(("<",)), tab.get(("=",)), tab.get((">",))
+    if not eq or not eq <= {l1, l2}:
+        return "other", {}
+    if lt == {l2} and gt == {l1}:
+        return "max", ops
+    if lt == {l1} and gt == {l2}:
+        return "min", ops
+    return "other", {}
+
+
 def ret_truths(ctx, W, g, val):
     """Truth values (True / False / None = undecided) a bool-returning body may return under the valuation."""
     from engine import query as Q
@@ -606,6 +652,99 @@ def _infeasible(ctx, site):
     return None
 
 
+def _norm_arith(t):
+    """(XWithOverflow(a,b)).0 -> X(a,b)"""
+    if not isinstance(t, tuple):
+        return t
+    if t and t[0] == "field" and t[2] == "0" and t[1][0] == "bin" and t[1][1].endswith("WithOverflow"):
+        return ("bin", t[1][1][:-len("WithOverflow")], _norm_arith(t[1][2]), _norm_arith(t[1][3]))
+    return tuple(_norm_arith(x) if isinstance(x, tuple) else x for x in t)
+
+
+def _expand_pure(ctx, t, depth=0):
+    """inline calls of pure workspace getters / arithmetic helpers (single return term) into the term"""
+    from engine.guards import Inliner
+    t = _norm_arith(t)
+    if not isinstance(t, tuple) or depth > 5:
+        return t
+    if t and t[0] == "call" and isinstance(t[1], str) and _pure_workspace_fn(t[1]):
+        body = Inliner(ctx).inline_fn(t[1], [_expand_pure(ctx, a, depth + 1) for a in t[2]])
+        if body is not None:
+            return _expand_pure(ctx, body, depth + 1)
+    return tuple(_expand_pure(ctx, x, depth + 1) if isinstance(x, tuple) else x for x in t)
+
+
+def _linear_bound(ctx, site):
+    """`n - e` / `c * e` on one unsigned quantity n where e <= A*n + B with A <= 1, B <= 0 (rational linear upper bound
+    through constant division, constant multiplication, subtraction of constants and addition): e <= n, so the
+    subtraction cannot underflow and the product cannot exceed n's type. Sub-expressions are separate sites."""
+    from fractions import Fraction
+    fn = site.fn
+    t = fn.blocks[site.bb]["t"]
+    if site.kind != "overflow" or t["k"] != "assert" or t["msg"].get("k") != "Overflow" or t["msg"].get("op") not in ("Sub", "Mul") or len(site.terms) < 2:
+        return None
+    tys = []
+    for o in (t["msg"].get("a"), t["msg"].get("b")):
+        d = o.get("c") or o.get("m") or o.get("k")
+        tys.append(fn.ty(d["t"]).s if d and "t" in d else None)
+    if tys[0] != tys[1] or tys[0] not in ("u8", "u16", "u32", "u64", "u128", "usize"):
+        return None
+    T = ctx.T(fn)
+    a, b = (_expand_pure(ctx, x) for x in site.terms[:2])
+    if any(x[0] == "cast" for y in (a, b) for x in subterms(y)):
+        return None
+
+    def leaves(e, out):
+        if e[0] == "bin" and len(e) == 4:
+            leaves(e[2], out)
+            leaves(e[3], out)
+        elif e[0] != "const":
+            out.append(e)
+        return out
+    ls = set(leaves(a, []) + leaves(b, []))
+    if len(ls) != 1:
+        return None
+    n = ls.pop()
+    if n[0] not in ("param", "field") or not _stable(T, n):
+        return None
+
+    def ub(e):
+        if e == n:
+            return (Fraction(1), Fraction(0))
+        if e[0] == "const" and isinstance(e[1], int) and e[1] >= 0:
+            return (Fraction(0), Fraction(e[1]))
+        if e[0] == "bin" and len(e) == 4:
+            op, x, y = e[1], e[2], e[3]
+            if op == "Div" and y[0] == "const" and isinstance(y[1], int) and y[1] > 0:
+                u = ub(x)
+                return None if u is None else (u[0] / y[1], u[1] / y[1])
+            if op == "Mul":
+                for c, z in ((x, y), (y, x)):
+                    if c[0] == "const" and isinstance(c[1], int) and c[1] >= 0:
+                        u = ub(z)
+                        return None if u is None else (u[0] * c[1], u[1] * c[1])
+            if op == "Sub":
+                u = ub(x)
+                if u is None:
+                    return None
+                lo = y[1] if y[0] == "const" and isinstance(y[1], int) and y[1] >= 0 else 0
+                return (u[0], u[1] - lo)
+            if op == "Add":
+                u, v = ub(x), ub(y)
+                return None if u is None or v is None else (u[0] + v[0], u[1] + v[1])
+        return None
+    op = t["msg"]["op"]
+    if op == "Sub" and a == n:
+        u = ub(b)
+        if u is not None and u[0] <= 1 and u[1] <= 0:
+            return "subtrahend <= %s*n%+d/%d <= n for every n >= 0 (linear upper bound): no underflow" % (u[0], u[1].numerator, u[1].denominator)
+    if op == "Mul":
+        u = ub(("bin", "Mul", a, b))
+        if u is not None and u[0] <= 1 and u[1] <= 0:
+            return "product <= %s*n%+d/%d <= n for every n >= 0 (linear upper bound): fits the type of n" % (u[0], u[1].numerator, u[1].denominator)
+    return None
+
+
 def dedupe(ctx, sites, panic_abort):
     """One entry per written instruction: [(representative Site, discharge reason or None)]. An instruction of a
     helper that was inlined into several callers is discharged only if every copy is (the operands may be
@@ -616,7 +755,7 @@ def dedupe(ctx, sites, panic_abort):
         groups.setdefault((s.ident, s.kind, s.callee), []).append(s)
     out = []
     for ss in groups.values():
-        rs = [auto_discharge(s, s.fn, ctx.T(s.fn), panic_abort) or _infeasible(ctx, s) for s in ss]
+        rs = [auto_discharge(s, s.fn, ctx.T(s.fn), panic_abort) or _infeasible(ctx, s) or _linear_bound(ctx, s) for s in ss]
         if all(r is not None for r in rs):
             out.append((ss[0], rs[0]))
         else:
